@@ -55,6 +55,8 @@ type FuncContract struct {
 	Alias    string
 	Havoc    []string
 	Ghost    []GhostVar
+	ModExcept []string // "modifies everything except T1, T2": type texts
+	Preserves []string // types whose heaps uncontracted calls in this function never modify (assumption)
 	used     bool
 }
 
@@ -99,7 +101,7 @@ var clauseKeywords = map[string]bool{"func": true, "iface": true, "requires": tr
 	"nopanic": true, "inline": true, "pure": true, "panics": true, "loop": true, "prop": true, "pred": true,
 	"uf": true, "at": true, "assumed": true, "trusted": true, "expect": true, "math": true, "fresh": true,
 	"axiom": true, "ghost": true, "havoc": true, "alias": true, "end": true,
-	"ghostfield": true, "define": true, "view": true, "ghostscalar": true, "deterministic": true, "globalinv": true}
+	"ghostfield": true, "define": true, "view": true, "ghostscalar": true, "deterministic": true, "globalinv": true, "preserves": true}
 
 var labelRe = regexp.MustCompile(`^(requires|ensures|invariant)\[([A-Za-z0-9_.:-]+)\]`)
 
@@ -234,11 +236,16 @@ func (db *ContractDB) parseContractFile(path, pkgPath string, prefix string, ass
 				cur.HasMod = true
 				if rest == "*" {
 					cur.ModAll = true
+				} else if strings.HasPrefix(rest, "everything except ") {
+					cur.ModAll = true
+					cur.ModExcept = append(cur.ModExcept, splitTop(strings.TrimPrefix(rest, "everything except "), ',')...)
 				} else if rest != "" && rest != "nothing" {
 					cur.Modifies = append(cur.Modifies, splitTop(rest, ',')...)
 				}
 			case "havoc":
 				cur.Havoc = append(cur.Havoc, splitTop(rest, ',')...)
+			case "preserves":
+				cur.Preserves = append(cur.Preserves, splitTop(rest, ',')...)
 			case "nopanic":
 				cur.NoPanic = true
 			case "inline":
